@@ -69,7 +69,10 @@ def _inline(text, lets, depth=0):
             r = A.render(lets[w])
             if len(r) > 400:
                 return w
-            return "(" + _inline(r, {k: v for k, v in lets.items() if k != w}, depth + 1) + ")"
+            inner = _inline(r, {k: v for k, v in lets.items() if k != w}, depth + 1)
+            if A.kind(lets[w]) in ("Expr::Path", "Expr::Call", "Expr::MethodCall", "Expr::Field", "Expr::Try", "Expr::Macro", "Expr::Index", "Expr::Lit", "Expr::Paren"):
+                return inner
+            return "(" + inner + ")"
         return w
 
     return re.sub(r"(?<![A-Za-z0-9_.#:\"])\b[a-z_][a-z0-9_]*\b(?![A-Za-z0-9_(!:\"])", sub, text)
@@ -117,7 +120,9 @@ def guard_chain(fn, site, parents, lets):
                         break
                     ag = a.get("guard")
                     agx = ag[1] if isinstance(ag, list) and len(ag) > 1 else ag
-                    earlier.append(A.render_pat(a["pat"]) + ((" if " + _inline(A.render(agx), lets)) if isinstance(agx, dict) else ""))
+                    if isinstance(agx, dict):
+                        # only a *guarded* earlier arm takes inputs away from a later arm with a disjoint pattern
+                        earlier.append(A.render_pat(a["pat"]) + " if " + _inline(A.render(agx), lets))
             chain.append(f"match {scr} [after {' | '.join(earlier)}] => {pat}{gtxt}" if earlier else f"match {scr} => {pat}{gtxt}")
         elif k == "Expr::While":
             chain.append(f"while {_inline(A.render(p['cond']), lets)}")
@@ -161,11 +166,25 @@ def collect(ctx):
                 if lets is None:
                     lets = _lets(fn)
                 chain = guard_chain(fn, x, ps, lets)
+                raised = True
+                if kind_ == "syn::Error":
+                    raised = any(
+                        A.kind(p) == "Expr::Return"
+                        or (A.kind(p) == "Expr::Call" and A.kind(p["func"]) == "Expr::Path" and A.path_str(p["func"]).split("::")[-1] == "Err")
+                        or (A.kind(p) == "Expr::MethodCall" and p["method"]["sym"] in ("ok_or_else", "ok_or", "map_err", "or_else", "unwrap_or_else", "map_or", "map_or_else", "combine", "push"))
+                        for p in ps
+                    )
+                    if not raised:
+                        # the value a helper returns (`fn legacy_error(..) -> syn::Error`)
+                        ret = fn.node["sig"].get("output")
+                        rtxt = " ".join(A.path_str(t) or "" for t, _ in A.find(ret, "Type::Path")) if ret else ""
+                        st = fn.block["stmts"]
+                        raised = "Error" in rtxt and "Result" not in rtxt and bool(st) and A.kind(st[-1]) == "Stmt::Expr" and _within(x, st[-1])
                 base = f"{rel}::{fn.qual}:{kind_}:{(msg or '<no message>')[:70]}"
                 per[base] = per.get(base, 0) + 1
                 key = base if per[base] == 1 else f"{base}#{per[base]}"
                 canon = A.alpha(" && ".join(chain))
-                out.append({"key": key, "file": rel, "fn": fn.qual, "kind": kind_, "message": msg, "guard": canon, "where": ctx.where(f, x) if hasattr(ctx, "where") else ""})
+                out.append({"key": key, "file": rel, "fn": fn.qual, "kind": kind_, "message": msg, "guard": canon, "raised": raised, "where": ctx.where(f, x) if hasattr(ctx, "where") else ""})
     return out
 
 
@@ -183,6 +202,14 @@ def rule_reject_ledger(ctx):
     led = json.load(open(LEDGER))["sites"]
     cur = collect(ctx)
     by_fn_cur, by_fn_led = {}, {}
+    for s in cur:
+        if not s["raised"]:
+            ctx.report(
+                f"reject:not-raised:{s['file']}::{s['fn']}:{s['guard'][:60]}",
+                s["where"],
+                f"`{s['fn']}` constructs the diagnostic `{(s['message'] or '')[:70]}` but neither returns it, wraps it in `Err(..)` nor hands it to an error combinator: the refusal is silently dropped",
+                {},
+            )
     for s in cur:
         by_fn_cur.setdefault((s["file"], s["fn"]), []).append(s)
     for key, row in led.items():
